@@ -11,6 +11,7 @@
   declarations (all kinds, slices, maps, groups, commands) is exercised on every run by the
   harness: write, read into a fresh parser, compare every option.
 -/
+import GoFlags.Lemmas.OneLine
 import GoFlags.Props.C12.Facts
 import GoFlags.Ini
 import GoFlags.Lemmas.Trim
@@ -343,6 +344,40 @@ theorem string_slice_round_trip (E : Env) (hE : E.spacesNotPrintable) (file : By
     refine ⟨⟨name, v, q, n + 1⟩ :: es, by simp [hes], ?_⟩
     simp only [List.map_cons, readIniLines, hq, List.foldl_cons]
     exact hr
+
+theorem writeOption_ends_with_newline (E : Env) (name key value : Bytes) (isStr comment force : Bool) :
+    writeOption E name isStr key value comment force =
+      (writeOption E name isStr key value comment force).dropLast ++ [0x0A] := by
+  unfold writeOption
+  simp only
+  rw [List.dropLast_concat]
+
+/-- **Write / read round trip of a whole slice of strings — at the level of the TEXT.**  The
+    text the writer emits for a `[]string` option (one line per element, each closed by a line
+    feed) is split by the reader into exactly those lines — no element can smuggle a line break
+    into the file: a printable string contains none and `strconv.Quote` escapes it
+    (`writeOption_is_one_line`, `iniLines_of_lines`) — and reading them adds one entry per
+    element, in order, with the element's bytes. -/
+theorem string_slice_text_round_trip (E : Env) (hE : E.spacesNotPrintable) (file : Bytes) (cur name : Bytes)
+    (force : Bool) (hk : IniKeyOK name) (hn : 0x0A ∉ name) (vs : List Bytes) (hb : ∀ v ∈ vs, ∀ b ∈ v, b < 256)
+    (f : IniFile) (n : Nat) :
+    ∃ es : List IniVal,
+      es.map (fun e => (e.name, e.value)) = vs.map (fun v => (name, v)) ∧
+      readIniLines file (iniLines (vs.flatMap fun v => writeOption E name true [] v false force)) n (f, cur) =
+        .ok (es.foldl (fun f e => iniAddEntry f cur e) f) := by
+  have htext : (vs.flatMap fun v => writeOption E name true [] v false force) =
+      (vs.map fun v => (writeOption E name true [] v false force).dropLast).flatMap fun l => l ++ [0x0A] := by
+    induction vs with
+    | nil => rfl
+    | cons v vs ih =>
+      simp only [List.flatMap_cons, List.map_cons]
+      rw [ih (fun v' hv' => hb v' (by simp [hv'])), ← writeOption_ends_with_newline]
+  rw [htext, iniLines_of_lines _ (by
+    intro l hl
+    simp only [List.mem_map] at hl
+    obtain ⟨v, _, rfl⟩ := hl
+    exact writeOption_is_one_line E name v force hn)]
+  exact string_slice_round_trip E hE file cur name force hk vs hb f n
 
 /-- **A value written verbatim reads back verbatim**: the line `key = X`, for any X with plain
     ends, is read as the entry (key, X), unquoted. -/
